@@ -1,5 +1,6 @@
 import Hv.Driver.Core
 import Hv.Configs
+import Hv.ConfigsSpec
 namespace Hv.Driver
 open Hv Hv.XPath Hv.Configs
 
@@ -70,6 +71,12 @@ def configsCmd (_st : St) : List String → String
       s!"ok {dk} I{items} Q{ans}"
     | _, _ => "bad-arg"
   | "cfg.ovf" :: toks => xmlCmd (ovfDisks ovfCfg) toks
+  | "cfg.ovfspec" :: toks =>
+    -- the pointwise specification of theorem `ovf_disks_exact` and its hypothesis, evaluated on the same tree
+    match decXml toks with
+    | some (root, []) =>
+      s!"ok {if ConfigsSpec.ovfWfb root then 1 else 0} {encList ((ConfigsSpec.ovfSpec root).map some)}"
+    | _ => "bad-tree"
   | "cfg.vbox" :: toks => xmlCmd (fun r => (vboxDisks cfg vboxCfg r).map (fun l => l.map some)) toks
   | "cfg.pvs" :: toks => xmlCmd (pvsDisks pvsCfg) toks
   | _ => "bad-cmd"
